@@ -1208,12 +1208,25 @@ func findInjectorBuild(info *types.Info, fn *ast.FuncDecl) (*ast.CallExpr, error
 }
 
 func isWireImport(path string) bool {
+	return unvendor(path) == "github.com/google/wire"
+}
+
+// unvendor returns the path a vendored package is imported by: what follows
+// the last path element that is exactly "vendor".
+func unvendor(path string) string {
 	// TODO(light): This is depending on details of the current loader.
 	const vendorPart = "vendor/"
-	if i := strings.LastIndex(path, vendorPart); i != -1 && (i == 0 || path[i-1] == '/') {
-		path = path[i+len(vendorPart):]
+	for end := len(path); ; {
+		i := strings.LastIndex(path[:end], vendorPart)
+		if i == -1 {
+			return path
+		}
+		if i == 0 || path[i-1] == '/' {
+			return path[i+len(vendorPart):]
+		}
+		// An element that merely ends in "vendor"; look further left.
+		end = i + len(vendorPart) - 1
 	}
-	return path == "github.com/google/wire"
 }
 
 func isProviderSetType(t types.Type) bool {
